@@ -264,7 +264,7 @@ def body(chk):
                                              'result code': '0..2^31-1 in 1..4 octets', 'message id': '1..4 octets', 'response kinds': KINDS},
              need_regions=('controls', 'referrals', 'long-form', 'exop'))
     if not quick:
-        p2 = tier_param('C03F', (1, 1, 1, True))
+        p2 = tier_param('C03F', (1, 0, 0, True))
         run_lane(chk, ResponseDecode, p2, bounds={'strings': f'<= {p2[0]} bytes', 'referrals': p2[1], 'controls': p2[2], 'length forms': 'short/81/82/84/88 chosen independently for the envelope, the operation and the inner TLVs',
                                                   'result code': '0..2^31-1 in 1..4 octets', 'message id': '1..4 octets', 'response kinds': KINDS}, selftest=False, need_regions=('long-form',))
     run_lane(chk, Helpers, (), bounds={'result code': 'all u32', 'helpers': Helpers.FNS},
